@@ -58,8 +58,17 @@ def run(ctx):
     # metamorphic search on the implementation: random SE(3) motions (all isometries when stereo is off)
     stats = {'motions': 0, 'reflections': 0, 'skipped_unstable': 0}
     pool = molgen.pool(rng, ctx.n(50, 600)) + [molgen.synthetic_symmetric(rng) for _ in range(ctx.n(25, 300))]
+    # near-threshold inputs that are far OUTSIDE round-off: one pair distance at a relative 1e-3..1e-7 from a shell radius
+    near = [molgen.near_radius_molecule(rng) for _ in range(ctx.n(30, 300))]
+    stats['near_radius_molecules'] = len(near)
+    fixed = {}
+    for (name, m, cid, mult, level, delta) in near:
+        pool.append((name, m, cid))
+        fixed[name] = dict(mult=mult, level=level, incl=True)
     for (name, m, cid) in pool:
         o = molgen.rand_opts(rng)
+        if name in fixed:
+            o = dict(o, **fixed[name])
         if m1lib.is_unstable(m, cid, o):
             stats['skipped_unstable'] += 1
             continue
@@ -88,6 +97,56 @@ def run(ctx):
                          {'name': name, 'conf': cid, 'opts': m1lib.opts_json(o), 'matrix': M.tolist(), 'translation': t.tolist(),
                           'molblock': Chem.MolToMolBlock(m, confId=cid), 'levels_before': {str(k): v for k, v in base[1].items()},
                           'levels_after': {str(k): v for k, v in got[1].items()}}, finding_key='C01:motion')
+    # exact motions on the implementation: signed axis permutations and grid translations are EXACT in floating point on gridded
+    # coordinates, so the two poses are the same rational geometry and the outputs must be identical whatever the round-off; the
+    # poses are axis-aligned and (for the flat molecules) lie exactly in a coordinate plane - the orientations in which special
+    # cases of vector code (parallel / anti-parallel to a lab axis, zero components) are taken
+    from rdkit import Chem
+    from rdkit.Chem import AllChem
+    estats = {'exact_motions': 0, 'flat_molecules': 0, 'skipped_unstable': 0}
+    flat_pool = []
+    for smi in ['Cn1cnc2c1c(=O)n(C)c(=O)n2C', 'c1ccccc1', 'c1ccncc1', 'CC(=O)Oc1ccccc1C(=O)O', 'c1ccc2ccccc2c1', 'C=C=C', 'CC#CC', 'O=C=O',
+                'NC(=O)c1cccnc1', 'CC(C)Cc1ccc(cc1)C(C)C(=O)O', 'ClC=CCl', 'OCC(O)CO', 'F[C@](Cl)(Br)I', 'C[C@H](N)C(=O)O']:
+        fm = Chem.MolFromSmiles(smi)
+        AllChem.Compute2DCoords(fm)                      # all atoms in the plane z = 0
+        fm.SetProp('_Name', 'flat')
+        flat_pool.append(('flat ' + smi, molfacts.gridded(fm), 0))
+    epool = list(flat_pool)
+    for (name, m, cid) in molgen.pool(rng, ctx.n(10, 120), with_shipped=False):
+        epool.append((name, molfacts.gridded(m, conf_ids=[cid]), cid))
+    proper_sp = [M for M in SP if round(np.linalg.det(M)) == 1]
+    improper_sp = [M for M in SP if round(np.linalg.det(M)) == -1]
+    for (name, m, cid) in epool:
+        for o in [molgen.rand_opts(rng) for _ in range(ctx.n(2, 6))]:
+            if name.startswith('flat'):
+                o = dict(o, stereo=True if rng.random() < 0.8 else o['stereo'], level=max(2, o['level'] or 2))
+            if m1lib.is_unstable(m, cid, o):
+                estats['skipped_unstable'] += 1
+                continue
+            r0 = m1lib.base_run(ctx, name, m, cid, o)
+            if r0 is None:
+                continue
+            f0, obs0, k0 = r0
+            base = (k0, m1lib.all_level_ids(f0), m1lib.fp_multiset(f0, None, 1024))
+            estats['flat_molecules'] += 1 if name.startswith('flat') else 0
+            Ms = list(proper_sp) + ([] if o['stereo'] else rng.sample(improper_sp, 6))
+            if ctx.quick:
+                Ms = rng.sample(Ms, 10)
+            for M in Ms:
+                t = np.array([rng.randrange(-64, 64) / 16.0 for _ in range(3)]) if rng.random() < 0.5 else np.zeros(3)
+                m2 = m1lib.transformed(m, cid, M.astype(float), t)
+                f1, obs1, k1 = molfacts.impl_run(m2, cid, o)
+                estats['exact_motions'] += 1
+                ctx.count(('exact-motion', name, cid, str(o), str(M.tolist()), str(t.tolist())), k0 >= 1)
+                got = (k1, m1lib.all_level_ids(f1), m1lib.fp_multiset(f1, None, 1024))
+                if got != base:
+                    found = True
+                    ctx.fail('fingerprint changed under an EXACT axis-permutation motion (%s)' % ('proper' if round(np.linalg.det(M)) == 1 else 'improper, stereo off'),
+                             {'name': name, 'conf': cid, 'opts': m1lib.opts_json(o), 'matrix': M.tolist(), 'translation': t.tolist(),
+                              'molblock': Chem.MolToMolBlock(m, confId=cid), 'levels_before': {str(k): v for k, v in base[1].items()},
+                              'levels_after': {str(k): v for k, v in got[1].items()}}, finding_key='C01:motion')
+                    break
+    ctx.coverage['input_distribution']['exact_axis_motions'] = estats
     ctx.coverage['input_distribution']['metamorphic'] = stats
     ctx.coverage['rule'] = ('tie: gridded (molecule, conformer, options) cases, half of them also with the model input moved by an exact signed-permutation '
                             'rotation (reflection when stereo is off) and a grid translation, the implementation observation being that of the unmoved input; '
